@@ -11,7 +11,7 @@ import (
 func init() {
 	vfRegister(&vfProp{
 		id:       "C02",
-		classes:  []string{"os", "os-alloc", "rs", "rs-alloc", "rs-park", "os-halfclose", "rs-halfclose", "os-stall", "rs-stall"},
+		classes:  []string{"os", "os-alloc", "rs", "rs-alloc", "rs-park", "os-halfclose", "rs-halfclose", "os-stall", "rs-stall", "big"},
 		gen:      c02Gen,
 		exec:     c02Exec,
 		maxSteps: 30000,
@@ -37,6 +37,13 @@ func c02Gen(class string, seed uint64, tier string) *vfScenario {
 	case "rs-park":
 		sc.Cfg["kind"], sc.Cfg["parkdata"] = 1, 1
 		sc.Cfg["alloc"] = int64(rng.IntN(2))
+	case "big":
+		// servers configured with a large data-packet size, a file large enough, and reads around the
+		// size at which a reply frame exceeds what the package itself would accept on receipt (256 KiB)
+		sc.Cfg["kind"] = int64(rng.IntN(2))
+		sc.Cfg["alloc"] = int64(rng.IntN(2))
+		sc.Cfg["maxtx"] = int64([]int{262134, 262135, 262136, 262144, 270000, 300000, 1 << 20}[rng.IntN(7)])
+		sc.Cfg["bigfile"] = int64(262100 + rng.IntN(40000))
 	}
 	if class == "os-halfclose" || class == "rs-halfclose" {
 		sc.Cfg["halfclose"] = 1
@@ -62,6 +69,22 @@ func c02Gen(class string, seed uint64, tier string) *vfScenario {
 		n = 1 + rng.IntN(6)
 	}
 	sc.Ops = vfGenProgram(rng, int(sc.Cfg["kind"]), n)
+	if class == "big" {
+		name := "/big"
+		if sc.Cfg["kind"] == 0 {
+			name = "big"
+		}
+		sc.Ops = vfGenProgram(rng, int(sc.Cfg["kind"]), rng.IntN(6))
+		big := []vfOp{{K: "open", P: name, A: 1, H: 900}}
+		for i, k := 0, 1+rng.IntN(4); i < k; i++ {
+			big = append(big, vfOp{K: "read", H: 900, Off: int64(rng.IntN(3)), N: 262130 + rng.IntN(16)})
+			if rng.IntN(3) == 0 {
+				big[len(big)-1].N = 200000 + rng.IntN(900000)
+			}
+		}
+		at := rng.IntN(len(sc.Ops) + 1)
+		sc.Ops = append(append(append([]vfOp{}, sc.Ops[:at]...), big...), sc.Ops[at:]...)
+	}
 	if rng.IntN(5) == 0 {
 		sc.Cfg["window"] = int64(1 + rng.IntN(9))
 	}
